@@ -168,6 +168,9 @@ structure DState where
   facts : List (Nat × SigFacts) := []
   fps : List (Nat × Bytes) := []        -- key index ↦ PGP fingerprint
   store : Option Store := none          -- C14: bare backing store driven by raw calls
+  /-- a Verifier kept across operations: its tasks (descriptors as they were when it was made),
+      the group-minimum cache of that moment (the descriptors carry their relative IDs), its keys -/
+  held : Option (List Task × List (Nat × Nat) × KeyMaterial) := none
 
 def DState.factsOf (st : DState) (blob : Bytes) : SigFacts := (st.facts.lookup (fnv64 blob).toNat).getD {}
 def DState.fpOf (st : DState) (k : Nat) : Bytes := (st.fps.lookup k).getD []
@@ -406,6 +409,62 @@ partial def loop (inp : IO.FS.Stream) (out : IO.FS.Stream) (st : DState) : IO Un
               let ent := match r.entity with | some k => toString k | none => "-"
               out.putStrLn s!"vr sig={r.sigID} verified={",".intercalate (r.verified.map toString)} keys={",".intercalate ((sortDedupNat r.keys).map toString)} ent={ent}"
       loop inp out st
+    | "vhold" =>
+      -- NewVerifier now; the Verifier is used by later `vheld` commands, whatever happens to the image meanwhile
+      match st.img with
+      | none =>
+        out.putStrLn "noimg"
+        loop inp out st
+      | some img =>
+        let (vo, km) := parseVerifyOpts kv
+        match newVerifier ph img vo with
+        | .error e =>
+          out.putStrLn s!"vh newerr:{ierrClass e}"
+          loop inp out { st with held := none }
+        | .ok tasks =>
+          out.putStrLn "vh ok"
+          loop inp out { st with held := some (tasks, img.minIDs, km) }
+    | "vheld" =>
+      match st.img, st.held with
+      | some img, some (tasks, mins, km) =>
+        -- the tasks' descriptors keep the relative IDs they were given; everything else is read from the image as it is now
+        let cur : Img := { img with minIDs := mins }
+        match kv.get "mode" with
+        | "verify" =>
+          match verify hashOf ph st.fpOf st.factsOf cur km tasks with
+          | .error e => out.putStrLn s!"v err:{ierrClass e}"
+          | .ok rs =>
+            out.putStrLn s!"v ok n={rs.length}"
+            for r in rs do
+              let ent := match r.entity with | some k => toString k | none => "-"
+              out.putStrLn s!"vr sig={r.sigID} verified={",".intercalate (r.verified.map toString)} keys={",".intercalate ((sortDedupNat r.keys).map toString)} ent={ent}"
+        | m =>
+          match fingerprints ph st.factsOf cur tasks (m == "any") with
+          | .error e => out.putStrLn s!"fp err:{ierrClass e}"
+          | .ok fps => out.putStrLn s!"fp ok {",".intercalate (fps.map hex)}"
+      | _, _ => out.putStrLn "vh none"
+      loop inp out st
+    | "poke" =>
+      -- bytes written into the backing store behind the handle's back (another writer): Seek + Write on the store, no load
+      let n := kv.nat "nsites"
+      let mut sites : List (Nat × Bytes) := []
+      for _ in [0:n] do
+        let l ← inp.getLine
+        let k := parseKV (((l.trimAscii.toString.splitOn " ").filter (· != "")).drop 1)
+        sites := sites ++ [(k.nat "off", k.bytes "hex")]
+      match st.img with
+      | none =>
+        out.putStrLn "noimg"
+        loop inp out st
+      | some img =>
+        let mut sto := img.st
+        for (off, b) in sites do
+          if off + b.length ≤ sto.buf.length then
+            match sto.calls [.seekStart off, .write b] with
+            | some s' => sto := s'
+            | none => pure ()
+        out.putStrLn "poked"
+        loop inp out { st with img := some { img with st := sto } }
     | "signedby" =>
       match st.img with
       | none => out.putStrLn "noimg"
